@@ -3,17 +3,21 @@
    theories/Raft.v (transcription of agdb_server/src/raft.rs; `run rv size evs` = the cluster of `size` nodes after
    the adversary's event list: timer readings, deliveries, losses, duplications, client appends).
 
-   The model carries the revision `rv : raftrev` of the election code (Raft.v):
+   The model carries the revision `rv : raftrev` of raft.rs (Raft.v):
      fix_vote_term  — vote_request adopts the request's term when it grants the vote,
-     fix_vote_match — response() counts a Vote/Ok answer only if it answers a request of the candidate's current term;
-   `rr_fixed` has both repairs, `rr_pinned` has neither (raft.rs as it was when the defects were found).  The check
-   reads the source tree it runs against and compares the code with the model of THAT revision.
+     fix_vote_match — response() counts a Vote/Ok answer only if it answers a request of the candidate's current term,
+     fix_ack_term   — a leader counts only acknowledgements of its current term (a repair of the log replication,
+                      C28c / C29; irrelevant for elections: `C27_election_safety_any_ack_revision`);
+   `rr_fixed` has all repairs, `rr_before_ack_fix` the two election repairs only, `rr_pinned` none (raft.rs as it was
+   when the defects were found).  The check reads the source tree it runs against and compares the code with the
+   model of THAT revision.
 
    FULL STATEMENT: forall size evs, election_safety (c_hist (run rv size evs))
    i.e. under any interleaving of message delivery, loss, duplication and reordering and any timer
    expirations, no two cluster nodes are ever leaders for the same term.
-   * `rr_fixed`: PROVED at full strength, `C27_election_safety` — every cluster size, every event list.
-   * every other revision: machine-checked FALSE (`C27_refuted_*`); the two defect classes `double_vote_b` (a node
+   * `rr_fixed` (and every revision with both election repairs): PROVED at full strength, `C27_election_safety` —
+     every cluster size, every event list.
+   * every revision lacking one of the two election repairs: machine-checked FALSE (`C27_refuted_*`); the two defect classes `double_vote_b` (a node
      supports two candidates, itself included, in one term) and `stale_vote_b` (a candidate counts the Ok answer to
      a Vote request of another term) are the recorded findings the two repairs remove. *)
 From Coq Require Import NArith List.
@@ -33,6 +37,13 @@ Open Scope N_scope.
 Theorem C27_election_safety : forall size evs, election_safety (c_hist (run rr_fixed size evs)).
 Proof. exact election_safety_fixed. Qed.
 Print Assumptions C27_election_safety.
+
+(* the same for every revision with both election repairs, whatever the acknowledgement flag — in particular for
+   `rr_before_ack_fix`, the code before the repair of `commit-without-quorum` *)
+Theorem C27_election_safety_any_ack_revision : forall rv size evs,
+  fix_vote_term rv = true -> fix_vote_match rv = true -> election_safety (c_hist (run rv size evs)).
+Proof. exact election_safety_elect_fixed. Qed.
+Print Assumptions C27_election_safety_any_ack_revision.
 
 (* the three defect classes rooted in the election code never occur in the repaired revision: no node supports two
    candidates in one term, no candidate counts a vote of another term, no node acknowledges an Append/Heartbeat
@@ -71,9 +82,12 @@ Theorem C27_refuted_stale_vote :
 Proof. exact C27_refuted_stale_vote. Qed.
 Print Assumptions C27_refuted_stale_vote.
 
-(* both repairs are needed: the property is false of every revision other than `rr_fixed` *)
+(* both election repairs are needed: the property is false of every revision that lacks one of them (whatever the
+   acknowledgement flag); together with `C27_election_safety_any_ack_revision`: the property holds of a revision iff
+   it has both election repairs *)
 Theorem C27_refuted_unless_both_repairs :
-  forall rv, rv <> rr_fixed -> ~ (forall size evs, election_safety (c_hist (run rv size evs))).
+  forall rv, (fix_vote_term rv && fix_vote_match rv)%bool = false ->
+             ~ (forall size evs, election_safety (c_hist (run rv size evs))).
 Proof. exact C27_refuted_unless_both_repairs. Qed.
 Print Assumptions C27_refuted_unless_both_repairs.
 
